@@ -5,5 +5,7 @@ POSTCONDITION Post
 CHECK_DEADLOCK FALSE
 CONSTANTS
   Deviations <- EmptySet
+  KindSet <- EmptySet
+  InputKinds <- EmptySet
   MaxP = 0
   MaxPos = 0
